@@ -15,7 +15,7 @@ tot = sum(s[0] for s in stats.values()); miss = sum(s[1] for s in stats.values()
 lines = []
 lines.append("### 11.5 Seeded changes (independent sub-agents) and which checks catch them\n")
 lines.append(f"""{tot} changes were produced by fresh sub-agents that were given ONLY the text of one property and a scratch git
-worktree of /repo (nothing from /verif), two per property and round, each required to keep the code running and the
+worktree of /repo (nothing from /verif), two per property and round (three rounds), each required to keep the code running and the
 stable tests passing and to need something specific to manifest; from round 2 on the agents were also told the earlier
 changes for their property (one line each) and asked for a different function / clause. Each change was kept only after
 I confirmed in a scratch worktree that its `demo.py` exits 0 on the unchanged tree and 1 with `patch.diff` applied (the
@@ -27,7 +27,7 @@ needed /repo untouched; `tools/seed_eval.sh` applies a patch to /repo itself and
 per = "; ".join(f"round {r}: {s[0] - s[1]} of {s[0]} detected by the checks as they stood" +
                 (f" ({s[2]} of them first as `no-failing-input-found`)" if s[2] else "") for r, s in sorted(stats.items()))
 lines.append(f"""**Result: {per}. Every miss led to a strengthened generator / predicate (never to a weakened one), after which all
-{tot} are reported as VIOLATION with a replay.** The misses fall in four groups: (i) *multi-call state* — one object
+{tot} are reported as VIOLATION with a replay.** The misses fall in these groups: (i) *multi-call state* — one object
 called several times or several objects of one class in a process (C04, C11, C13, C15, C16, C17, C20, C08 samplers, C07
 / C05 carry-over): "reuse" families were added; (ii) *configuration coverage* — an option or data shape the generator
 never produced (signed segmentation masks, `estimator_batch_size`, `output_layer`, several dataset batches, tiny-magnitude
@@ -35,7 +35,16 @@ cosine, strip images, asymmetric distances, kernels with a non-constant diagonal
 sizes after `fit`, soft class vectors in detection targets, squeezing callables, Lime's cosine kernel): added;
 (iii) a predicate that demanded more than the property (C15 neighbour grouping) was relaxed while the value clause
 still catches the change; (iv) a refactoring that only defeated the translator (C11 axis lists, C06 helper) was first
-reported without a failing input, the search space was then widened until it produced one.
+reported without a failing input, the search space was then widened until it produced one; (v) *numerical range* (round 3) —
+the generated data were small integers around 0, so a formula that is algebraically equal but cancels in float32
+(`||a||^2 - 2<a,b> + ||b||^2` for a squared distance in Lime's kernel, in the rbf kernel of the prototype searches, in
+Jansen's estimator), a threshold / floor (IG's "equal to the baseline" epsilon, a variance floor) or a float32 staging
+buffer for labels was invisible: families with a large common offset (4096), inputs scaled by 2^-40 .. 2^30, logits
+scaled by 2^-18 .. 2^12 and labels above 2^24 were added - all keep float32 exact, so they cost no tolerance;
+(vi) *identity vs value* (round 3) — the same NumPy buffers rewritten in place between calls, a sibling Keras model with
+the same name and shapes, segment ids that do not follow the raster scan, norms of different orders ranking cases
+differently, Rise with draws that matter: added; (vii) one change (C15, rank correlation without scipy) was first
+"detected" for the wrong reason - the harness wrapped `fidelity.spearmanr`, which the change removes - see 11.4.
 """)
 lines.append(subprocess.check_output(["python3", "/verif/tools/seed_table.py"], text=True))
 txt = open("/verif/DESIGN.md").read()
